@@ -16,7 +16,7 @@ def models(tier):
         rng, homes = HOMES[hn]
         nk = len(homes)
         keys = set(range(1, nk + 1))
-        tc = dict(Range=rng, NKeys=nk, Vals={1, 2, 3, 4, 5, 6})
+        tc = dict(Range=rng, NKeys=nk, Vals={1, 2, 3, 4, 5, 6, 7})
         # value kinds: 2/5 equal up to an embedded NUL; 3 an integer string, 4 empty; 6 a proper prefix of 1
         for vi, table in enumerate(([{1: 5, 2: 2}, {1: 3, 2: 4}, {1: 1, 2: 6}])):
             if vi == 1 and (hn not in ("H1", "H3") or tier == "cross"):
@@ -37,7 +37,7 @@ def _rand(rng, steps, nkeys):
     for s in range(steps):
         r = rng.random()
         k = rng.randint(1, nkeys)
-        if r < 0.45: seg.append(dict(op="put", k=k, v=rng.choice([1, 2, 3, 4, 5, 2, 5, 6, 1, 6])))
+        if r < 0.45: seg.append(dict(op="put", k=k, v=rng.choice([1, 2, 3, 4, 5, 2, 5, 6, 1, 6, 7])))
         elif r < 0.68: seg.append(dict(op="remove", k=k, v=0))
         elif r < 0.90: seg.append(dict(op="get", k=k, v=0))
         elif r < 0.95: seg.append(dict(op="size", k=0, v=0))
@@ -54,6 +54,6 @@ def randoms(tier, rng):
     for (r, nk, nseg, steps) in plan:
         real = r if r else 1000
         out.append(dict(tag="r%d" % r, segs=[_rand(rng, steps, nk) for _ in range(nseg)],
-                        trace_consts=dict(Range=real, NKeys=nk, Vals={1, 2, 3, 4, 5, 6}), trace_subst=dict(Home="HR", Keys="KeysN"),
+                        trace_consts=dict(Range=real, NKeys=nk, Vals={1, 2, 3, 4, 5, 6, 7}), trace_subst=dict(Home="HR", Keys="KeysN"),
                         replays=[dict(tag="r%d" % r, args=(lambda s, t, fl, r=r, nk=nk: [s, t, r, nk, "-", fl]))]))
     return out
